@@ -395,7 +395,7 @@ def candidates(scn):
 
 
 BUDGET = {
-    "quick": {"runs": 16000, "seconds": 40, "selfcheck": 3, "crosscheck": 16},
+    "quick": {"runs": 10000, "seconds": 40, "selfcheck": 3, "crosscheck": 16},
     "thorough": {"runs": 400000, "seconds": 900, "selfcheck": 20, "crosscheck": 60},
 }
 
